@@ -489,6 +489,13 @@ Definition faulted_weight (id : Z) (o : op) : bool :=
   match o with OWeight i _ _ (Fault _ _ _) => i =? id | _ => false end.
 Definition is_clean (o : op) : bool := match o with OClean _ _ => true | _ => false end.
 
+Definition no_fault (o : op) : bool :=
+  match o with
+  | OPut _ _ NoFault | OLabels _ _ _ NoFault | ORemove _ _ NoFault | OUp _ NoFault | OBury _ NoFault | OCheck _ NoFault
+  | OWeight _ _ _ NoFault | OClean _ NoFault | OHeartbeat _ NoFault | ORegion _ _ | OSetEnv _ => true
+  | _ => false
+  end.
+
 Definition count_regions (rg : amap (list Z)) (id : Z) : nat :=
   length (filter (fun e : Z * list Z => existsb (Z.eqb id) (snd e)) rg).
 
@@ -561,7 +568,12 @@ Definition mon_step (past : list op) (rg : amap (list Z)) (o : op) (prev cur : o
                 else ["C14:stored-differs-from-served-after-success"]
             | _, _ => ["C14:stored-differs-from-served-after-success"]
             end) (nodup Z.eq_dec ids)
-   else []).
+   else []) ++
+  (* 7 an operation none of whose store-record writes failed and that answers with an error was refused: it has written nothing
+     (a request that is answered "failed" must not have moved the stored record - the next leader would load it) *)
+  (if is_err (o_res cur) && no_fault o && negb (is_clean o)
+      && negb (forallb (fun id => proj_same (vget (o_stored prev) id) (vget st id)) (ids_of (o_stored prev) st))
+   then ["C14:refused-operation-changed-the-stored-record"] else []).
 
 (* the replication settings in force: the last OSetEnv of the past (newest first), else the boot settings *)
 Fixpoint env_of (past : list op) : env :=
